@@ -508,7 +508,8 @@ class Pipeline:
     def _current_cache(self) -> LRUCache | HybridCache | DiskCache | SimpleCache | None:
         """Return the cache used by the pipeline."""
         if (tg := task_graph()) is not None:
-            return tg.cache
+            # every pipeline called inside the block has a cache of its own there
+            return tg.cache_for(self)
         return self.cache
 
     def _intermediate_supplied(
